@@ -378,3 +378,6 @@ func normPanic(p string) string {
 }
 
 var _ = hexutil.Encode
+
+// ExportDegraded reports whether the harness was built with the reflective fallback of the private-state export.
+func ExportDegraded() bool { return avm.VerifDegraded }
